@@ -17,7 +17,8 @@ from ..codec import decode_gate, rec
 from ..lib import CheckResult, Violation
 
 M = 4
-TOL = {"backprop": 1e-7, "parameter-shift": 1e-7, "adjoint": 1e-7, "hadamard": 1e-7, "finite-diff": 2e-5}
+TOL = {"backprop": 1e-7, "parameter-shift": 1e-7, "adjoint": 1e-7, "hadamard": 1e-7, "finite-diff": 2e-5,
+       "hadamard:standard": 1e-7, "hadamard:reversed": 1e-7, "hadamard:direct": 1e-7, "hadamard:reversed-direct": 1e-7}
 TRAIN1 = ["RX", "RY", "RZ", "PhaseShift"]
 TRAIN2 = ["CRX", "CRY", "CRZ", "IsingXX", "IsingYY", "IsingZZ", "IsingXY", "ControlledPhaseShift", "SingleExcitation",
           "SingleExcitationPlus", "SingleExcitationMinus", "PSWAP", "FermionicSWAP", "CPhaseShift10"]
@@ -58,8 +59,13 @@ def gen_case(rng):
             g["aff"] = (i, 1, 0)
             tr.append(len(ops))
             ops.append(g)
-    k = rng.choice(["expval", "expval", "probs", "var"])
-    if k == "probs":
+    k = rng.choice(["expval", "expval", "probs", "var", "hexp"])
+    if k == "hexp":
+        q = rng.randint(1, min(2, n))
+        ws = rng.sample(range(1, n + 1), q)
+        a = np.array([[complex(rng.randint(-3, 3), rng.randint(-3, 3)) for _ in range(1 << q)] for _ in range(1 << q)]) / 4
+        meas = ("hexp", ws, (a + a.conj().T).tolist())
+    elif k == "probs":
         meas = ("probs", sorted(rng.sample(range(1, n + 1), rng.randint(1, n))))
     else:
         pw = [rng.randint(0, 3) for _ in range(n)]
@@ -112,6 +118,8 @@ def build_ops_fn(c):
             else:
                 decode_gate(gg, M)
         m = c["meas"]
+        if m[0] == "hexp":
+            return qp.expval(qp.Hermitian(np.array(m[2]), wires=[w - 1 for w in m[1]]))
         if m[0] == "expval":
             return qp.expval(devsim.word_op(m[1], list(range(c["n"]))))
         if m[0] == "var":
@@ -123,6 +131,8 @@ def build_ops_fn(c):
 def pl_jacobian(c, interface, method, goe, dvjp):
     dev = qp.device("default.qubit", wires=c["n"] + 1)        # one spare wire for the Hadamard-test auxiliary
     kw = {"diff_method": method}
+    if method.startswith("hadamard:"):
+        kw = {"diff_method": "hadamard", "gradient_kwargs": {"mode": method.split(":")[1], "aux_wire": c["n"]}}
     if goe is not None:
         kw["grad_on_execution"] = goe
     if dvjp:
@@ -145,9 +155,10 @@ def pl_jacobian(c, interface, method, goe, dvjp):
 
 
 CONFIGS = [(i, m, g, d) for i in ("autograd", "jax", "jax-jit", "torch")
-           for m in ("backprop", "parameter-shift", "adjoint", "hadamard", "finite-diff")
+           for m in ("backprop", "parameter-shift", "adjoint", "hadamard", "finite-diff", "hadamard:standard", "hadamard:reversed",
+                     "hadamard:direct", "hadamard:reversed-direct")
            for g in (None, True, False) for d in (False, True)
-           if not (m in ("backprop", "finite-diff", "parameter-shift", "hadamard") and (g is True or d))
+           if not (m != "adjoint" and (g is True or d)) and not (m.startswith("hadamard:") and i != "autograd")
            and not (m == "adjoint" and g is None and d) and not (d and g is False and False)]
 
 
@@ -156,7 +167,7 @@ def run(tier, seed):
     gs = deriv.selfcheck("C34", M)
     cases = [gen_case(rng) for _ in range(36 if tier == "quick" else 600)]
     sts, stats = deriv.states("C34", [{"n": c["n"], "ops": tlc_ops(c), "tr": c["tr"]} for c in cases], M, order=1)
-    viol, n_cmp, accepted, rejected, samples = [], 0, {}, {}, []
+    viol, n_cmp, accepted, rejected, samples, rej_samples = [], 0, {}, {}, [], []
     nontriv = set()
     for ci, (c, st) in enumerate(zip(cases, sts)):
         # exact Jacobian by the chain rule
@@ -172,12 +183,14 @@ def run(tier, seed):
         cfgs = CONFIGS if ci % 4 == 0 or tier != "quick" else rng.sample(CONFIGS, 6)
         for (itf, method, goe, dvjp) in cfgs:
             tag = f"{itf}|{method}|goe={goe}|dvjp={dvjp}"
-            if method == "adjoint" and c["meas"][0] != "expval":
+            if method == "adjoint" and c["meas"][0] not in ("expval", "hexp"):
                 continue
             try:
                 Jp = pl_jacobian(c, itf, method, goe, dvjp)
             except Exception as e:
                 rejected[f"{method}:{type(e).__name__}"] = rejected.get(f"{method}:{type(e).__name__}", 0) + 1
+                if len(rej_samples) < 6:
+                    rej_samples.append(f"{tag}: {type(e).__name__}: {str(e)[:120]}")
                 continue
             accepted[tag] = accepted.get(tag, 0) + 1
             n_cmp += 1
@@ -203,7 +216,7 @@ def run(tier, seed):
            "traces_validated_against_impl": n_cmp, "evaluations": n_cmp, "distinct_nontrivial": len(nontriv),
            "rule": "seeded circuits (1-3 wires, 2-7 gates, 1-3 arguments with shared/affine use); non-trivial = distinct circuits with a "
                    "non-zero exact Jacobian on which every accepting configuration agreed",
-           "samples": samples, "configurations_accepting": accepted, "rejections": rejected, "generator_table_selfcheck_states": gs.distinct,
+           "samples": samples, "configurations_accepting": accepted, "rejections": rejected, "rejection_samples": rej_samples, "generator_table_selfcheck_states": gs.distinct,
            "negative_controls_rejected": 1, "ring_level_M": M}
     return CheckResult(coverage=cov, violations=viol, assumptions=[
         "exact part: psi and d_k psi from TLC; the Jacobian is their bilinear form computed in float64; finite-diff compared at 2e-5; spsa not covered",
